@@ -139,6 +139,13 @@ func (x *Exec) callWith(fr *Frame, st *State, in *ssa.Call, cc *ssa.CallCommon, 
 		k(st, r)
 		return
 	}
+	if x.isPureParam(fr, fn) {
+		if r, ok := x.applyUF(st, fn, args); ok {
+			x.funcsUsed["assume:the func-typed parameter "+strings.TrimPrefix(fn.Org, "param:")+" of "+FuncKey(rootFn(fr.fn))+" is a pure function of its arguments (no effects, same answer for the same arguments)"] = true
+			k(st, r)
+			return
+		}
+	}
 	if x.isYield(fn) && st.seqOn {
 		x.yieldCall(fr, st, cc, fn, args, k)
 		return
@@ -431,7 +438,7 @@ func (x *Exec) inlineCall(fr *Frame, st *State, callee *ssa.Function, clo *Closu
 func (x *Exec) applyContract(fr *Frame, st *State, cc *ssa.CallCommon, callee *ssa.Function, ctr *Contract, args []Val, k func(*State, Val)) {
 	key := FuncKey(callee)
 	x.funcsUsed["contract:"+FuncPkgPathShort(callee)+"."+key] = true
-	env := &Env{x: x, st: st, vars: map[string]Val{}, pkg: x.pkgOf(callee)}
+	env := &Env{x: x, st: st, vars: map[string]Val{}, pkg: x.pkgOf(callee), tfn: callee}
 	for i, p := range callee.Params {
 		if i < len(args) {
 			a := args[i]
@@ -510,7 +517,16 @@ func (x *Exec) applyContract(fr *Frame, st *State, cc *ssa.CallCommon, callee *s
 		if strings.Contains(c.Src, "calls") {
 			continue
 		}
-		st.assume(x.evalBool(post, c.Expr))
+		// a clause over the callee's own locals is proved inside the callee
+		// but says nothing a caller can use
+		var errs []string
+		post.errs = &errs
+		g := x.evalBool(post, c.Expr)
+		post.errs = nil
+		if len(errs) > 0 {
+			continue
+		}
+		st.assume(g)
 	}
 	// a method re-establishes the object invariant of its receiver
 	if callee.Signature.Recv() != nil && len(args) > 0 && callee.Parent() == nil {
@@ -1031,6 +1047,34 @@ func (x *Exec) closureOrdinal(f *ssa.Function) int {
 
 // ---------------------------------------------------------------------------
 // O-SEQ, producer side
+
+// isPureParam: fn is a func-typed parameter of the function under
+// verification that its contract declares `pure-param`.
+func (x *Exec) isPureParam(fr *Frame, fn Val) bool {
+	if x.ctr == nil || fr == nil || !strings.HasPrefix(fn.Org, "param:") {
+		return false
+	}
+	for _, p := range x.ctr.PureParams {
+		if fn.Org == "param:"+p {
+			return true
+		}
+	}
+	return false
+}
+
+// applyUF: application of a symbolic func value as an uninterpreted function
+// of (function identity, arguments); code and specs use the same symbol.
+func (x *Exec) applyUF(st *State, fn Val, args []Val) (Val, bool) {
+	if fn.Typ == nil {
+		return Val{}, false
+	}
+	sig, ok := fn.Typ.Underlying().(*types.Signature)
+	if !ok || sig.Results().Len() != 1 {
+		return Val{}, false
+	}
+	name := "app_" + sanitize(shortTypeName(sig))
+	return x.uninterp(st, name, append([]Val{fn}, args...), sig.Results().At(0).Type()), true
+}
 
 func (x *Exec) isYield(fn Val) bool {
 	return strings.HasPrefix(fn.Org, "param:yield") || strings.HasPrefix(fn.Org, "yield")
